@@ -125,10 +125,9 @@ class Uncompressed(CompressionFormat):
         print("{} :: occupancies {}, payloads {}".format(self.name, self.occupancies, self.payloads))
     
     def getSize(self):
-        assert(len(self.payloads) > 0)
         assert(len(self.coords) == 0)
         size = len(self.occupancies)
-        if not isinstance(self.payloads[0], CompressionFormat):
+        if len(self.payloads) > 0 and not isinstance(self.payloads[0], CompressionFormat):
             size += len(self.payloads)
         
         # print("size of {} = {}. coords {}, occupancies {}, payloads {}".format(self.name, size, self.coords, self.occupancies, self.payloads))
